@@ -459,6 +459,9 @@ func main() {
 		if len(infra) > 0 {
 			cov["inconclusive"] = infra
 		}
+		if merged.Assumptions == nil {
+			merged.Assumptions = []string{}
+		}
 		ev := map[string]any{
 			"property_id": id, "tier": tier, "seed": seed, "level": cfg.Level, "coverage": cov,
 			"assumptions": merged.Assumptions, "wall_s": time.Since(start).Seconds(), "violations": len(seen),
